@@ -17,7 +17,7 @@ What is modelled rather than taken from the code:
 * the client: `start_connection` refuses at once while a session is live, otherwise suspends; its
   completion, the completion of `finish_connection` and the end of a live session are chosen by the
   environment; a cancelled call ends as a failed attempt (`APIConnectionCancelledError`);
-* user callbacks return without suspending.
+* user callbacks either return at once or suspend (per scenario and per callback) until the environment's `cbDone`.
 -/
 namespace Esp.Reconnect
 
@@ -34,7 +34,11 @@ inductive Kind | connect | disc (expected : Bool) | startCall | stopCall
 deriving DecidableEq, Repr
 
 /-- where a task is: `running` only while it executes (never between two events) -/
-inductive Pc | running | lockWait | inStart | inFinish | done
+inductive Pc
+  | running | lockWait
+  | inStart | inFinish              -- suspended in `client.start_connection` / `client.finish_connection`
+  | inOnConnect | inOnError (k : ErrK) | inOnDisc   -- suspended in a user callback that awaits something
+  | done
 deriving DecidableEq, Repr
 
 /-- a task is identified by its position in `St.tasks` (creation order) -/
@@ -62,6 +66,7 @@ inductive Act
   | arm (delay : Nat)           -- retry timer armed
   | startRet | stopRet          -- start() / stop() returned
   | resetTries                  -- start() reset the failure count
+  | failCounted (k : ErrK)      -- `_handle_connection_failure` updated the failure count (after `on_connect_error` returned)
 deriving DecidableEq, Repr
 
 structure St where
@@ -80,6 +85,9 @@ structure St where
   cli : Cli := .idle
   now : Nat := 0
   hasName : Bool := true
+  suspConnect : Bool := false         -- the user's on_connect / on_connect_error / on_disconnect await something
+  suspError : Bool := false           -- (then the manager's task stays suspended, holding the lock, until `cbDone`)
+  suspDisc : Bool := false
   log : List Act := []
 deriving Repr
 
@@ -160,9 +168,6 @@ def cancelConnectTask (s : St) : St :=
 
 def cancelConnect (s : St) : St := cancelConnectTask (cancelTimer s)
 
-def handleFailure (s : St) (k : ErrK) : St :=
-  let s := emit (setState s .disconnected) (.onConnectError k)
-  { s with tries := if k = .auth then maxTries else s.tries + 1 }
 
 /-- the locked part of `_connect_once_or_reschedule` after a failed `_try_connect`; never re-enters
 `_call_connect_once` because the delay is never 0 (`backoff_pos`) -/
@@ -172,6 +177,17 @@ def afterFail (s : St) (tid : Nat) : St :=
   let s := emit { cancelTimer s with timer := some (s.now + w) } (.arm w)
   finish (release s) tid
 
+/-- `_handle_connection_failure` after `await on_connect_error(err)` returned, and the rest of the locked section -/
+def failEnd (s : St) (k : ErrK) (tid : Nat) : St :=
+  afterFail (emit { s with tries := if k = .auth then maxTries else s.tries + 1 } (.failCounted k)) tid
+
+/-- `_handle_connection_failure` up to `await on_connect_error(err)` (and through it when it does not suspend) -/
+def failBegin (s : St) (k : ErrK) (tid : Nat) : St :=
+  let s := emit (setState s .disconnected) (.onConnectError k)
+  -- (a cancellation that brought the task here has been consumed: it was turned into the failure being reported)
+  if s.suspError then setTask s tid (fun t => { t with pc := .inOnError k, result := none, mustCancel := false })
+  else failEnd s k tid
+
 /-- `_connect_once_or_reschedule` from the point where the lock is held -/
 def connectLocked (s : St) (tid : Nat) : St :=
   if s.state ≠ .disconnected ∨ s.stopped then finish (release s) tid
@@ -179,7 +195,7 @@ def connectLocked (s : St) (tid : Nat) : St :=
     let s := emit (setState s .connecting) .attempt
     if s.cli = .live then
       -- "Already connected": raised before anything is awaited
-      afterFail (handleFailure s .other) tid
+      failBegin s .other tid
     else setTask { s with cli := .starting } tid (fun t => { t with pc := .inStart, result := none })
 
 /-- a new eager connect task -/
@@ -202,10 +218,14 @@ def scheduleConnect (s : St) (delay : Nat) : St :=
   if delay = 0 then callConnectOnce s
   else emit { cancelTimer s with timer := some (s.now + delay) } (.arm delay)
 
-def discLocked (s : St) (tid : Nat) (expected : Bool) : St :=
-  let s := emit (setState s .disconnected) (.onDisconnect expected)
+/-- `_on_disconnect` after `await on_disconnect(expected)` returned -/
+def discEnd (s : St) (tid : Nat) (expected : Bool) : St :=
   let s := finish (release s) tid
   if s.stopped then s else scheduleConnect s (if expected then cooldown else 0)
+
+def discLocked (s : St) (tid : Nat) (expected : Bool) : St :=
+  let s := emit (setState s .disconnected) (.onDisconnect expected)
+  if s.suspDisc then setTask s tid (fun t => { t with pc := .inOnDisc, result := none }) else discEnd s tid expected
 
 def startLocked (s : St) (tid : Nat) : St :=
   let s := { s with stopped := false }
@@ -249,21 +269,35 @@ def wakeTask (s : St) (tid : Nat) (t : Task) : St :=
       lockedBody (setTask { removeWaiter s tid with locked := true } tid (fun t => { t with pc := .running })) tid t.kind
     else s   -- a task is only woken once its future is done
   | .inStart =>
-    if t.mustCancel then afterFail (handleFailure { s with cli := .idle } .other) tid
+    if t.mustCancel then failBegin { s with cli := .idle } .other tid
     else match t.result with
       | some .ok =>
         let s := setState (stopZc { s with cli := .finishing }) .handshaking
         setTask s tid (fun t => { t with pc := .inFinish, result := none })
-      | some (.fail k) => afterFail (handleFailure { s with cli := .idle } k) tid
+      | some (.fail k) => failBegin { s with cli := .idle } k tid
       | none => s
   | .inFinish =>
-    if t.mustCancel then afterFail (handleFailure { s with cli := .idle } .other) tid
+    if t.mustCancel then failBegin { s with cli := .idle } .other tid
     else match t.result with
       | some .ok =>
         let s := emit (setState { s with cli := .live, tries := 0 } .ready) .onConnect
-        finish (release s) tid
-      | some (.fail k) => afterFail (handleFailure { s with cli := .idle } k) tid
+        if s.suspConnect then setTask s tid (fun t => { t with pc := .inOnConnect, result := none })
+        else finish (release s) tid
+      | some (.fail k) => failBegin { s with cli := .idle } k tid
       | none => s
+  | .inOnConnect =>
+    -- `await self._on_connect_cb()` is the last statement under the lock: returned or cancelled, the lock is released
+    if t.mustCancel ∨ t.result.isSome then finish (release s) tid else s
+  | .inOnError k =>
+    -- a cancellation delivered inside the callback propagates out of the locked section: nothing is counted or scheduled
+    if t.mustCancel then finish (release s) tid
+    else if t.result.isSome then failEnd s k tid else s
+  | .inOnDisc =>
+    if t.result.isSome then
+      match t.kind with
+      | .disc e => discEnd s tid e
+      | _ => s
+    else s
 
 /-! ## events -/
 
@@ -272,6 +306,7 @@ inductive Ev
   | startDone (r : Res) | finishDone (r : Res)
   | sessionEnd (expected : Bool)
   | zc (matching : Bool)
+  | cbDone                      -- the user callback some task is suspended in returns
   | timerDue
   | wait (dt : Nat)
   | pop
@@ -282,6 +317,13 @@ def complete (s : St) (pc : Pc) (r : Res) : St :=
   | some tid => { setTask s tid (fun t => { t with result := some r }) with ready := s.ready ++ [.wake tid] }
   | none => s
 
+def inCb : Pc → Bool | .inOnConnect | .inOnError _ | .inOnDisc => true | _ => false
+
+def completeCb (s : St) : St :=
+  match s.tasks.findIdx? (fun t => inCb t.pc ∧ t.result = none ∧ !t.mustCancel) with
+  | some tid => { setTask s tid (fun t => { t with result := some .ok }) with ready := s.ready ++ [.wake tid] }
+  | none => s
+
 def step (s : St) : Ev → St
   | .callStart => spawn s .startCall
   | .callStop =>
@@ -289,6 +331,7 @@ def step (s : St) : Ev → St
     spawn s .stopCall
   | .startDone r => complete s .inStart r
   | .finishDone r => complete s .inFinish r
+  | .cbDone => completeCb s
   | .sessionEnd e => if s.cli = .live then spawn { s with cli := .idle } (.disc e) else s
   | .zc m =>
     if !s.zcListening ∨ !s.accept ∨ s.stopped ∨ !m then s
@@ -313,6 +356,7 @@ def step (s : St) : Ev → St
 
 def run (s : St) (evs : List Ev) : St := evs.foldl step s
 
-def init (hasName : Bool) : St := { hasName := hasName }
+def init (hasName : Bool) (suspConnect suspError suspDisc : Bool := false) : St :=
+  { hasName := hasName, suspConnect := suspConnect, suspError := suspError, suspDisc := suspDisc }
 
 end Esp.Reconnect
